@@ -775,6 +775,14 @@ fn reverse_ask(
             fields: vec![String::from("size")],
         })?;
 
+    // keep the approver-supplied base in step with the remaining size
+    if let AskOrderClass::Convertible {
+        status: AskOrderStatus::Ready { converted_base, .. },
+    } = &mut ask_order.class
+    {
+        converted_base.amount = ask_order.size;
+    }
+
     // is ask base a marker
     let is_base_restricted_marker = is_restricted_marker(&deps.querier, ask_order.base.clone());
 
